@@ -2756,6 +2756,14 @@ ws_str_recv(void *arg, nng_aio *aio)
 	if (nni_list_first(&ws->recvq) == aio) {
 		ws_read_finish(ws);
 	}
+	if (ws->closed) {
+		// No further frames will be read; fail what is still waiting
+		// rather than leaving it queued forever.
+		while ((aio = nni_list_first(&ws->recvq)) != NULL) {
+			nni_aio_list_remove(aio);
+			nni_aio_finish_error(aio, NNG_ECLOSED);
+		}
+	}
 	ws_start_read(ws);
 
 	nni_mtx_unlock(&ws->mtx);
